@@ -62,6 +62,7 @@ type RunSpec struct {
 	AbsPaths bool     `json:"abs_paths,omitempty"`     // destination paths made absolute (inside the run dir)
 	Uid      int      `json:"uid,omitempty"`           // run the worker as this user (setpriv)
 	Shell    string   `json:"shell_prelude,omitempty"` // sh -c prelude run before exec of the worker: umask, closed stdout, descriptor limit
+	Wrap     []string `json:"wrap,omitempty"`          // command prefix: taskset (runtime.NumCPU), unshare --uts + hostname
 	Script   Script   `json:"script"`
 	ProgKeys []string `json:"prog_keys"` // content hash of each script source
 }
@@ -169,6 +170,9 @@ var destNames = []string{"o.bin", "out.obj", "a", "x.img", "naskfunc.obj", "ipl.
 var tzs = []string{"UTC", "Asia/Tokyo", "America/New_York", "Pacific/Kiritimati", ""}
 var langs = []string{"C", "ja_JP.UTF-8", "en_US.UTF-8", "", "ja_JP.SJIS", "ja_JP.eucJP", "de_DE.ISO-8859-1", "tr_TR.UTF-8"}
 
+// process wrappers: the number of CPUs the runtime sees, the host name
+var procWraps = [][]string{nil, nil, nil, nil, {"taskset", "-c", "0"}, {"taskset", "-c", "0-2"}, {"unshare", "--uts", "sh", "-c", `hostname build7; exec "$@"`, "sh"}, {"unshare", "--uts", "sh", "-c", `hostname a-very-long-host-name.example.org; exec "$@"`, "sh"}}
+
 var shellPreludes = []string{"", "", "", "umask 077", "umask 000", "umask 027", "exec >&-", "exec 2>&-", "exec </dev/null >/dev/null", "ulimit -n 64", "ulimit -s 65536", "cd . "}
 
 func drawProcEnv(r *RNG, native bool) []string {
@@ -214,6 +218,7 @@ func refSpec(variant string, pp *PoolProg, seed uint64) *RunSpec {
 		spec.Uid = 65534
 	}
 	spec.Shell = pick(r, shellPreludes)
+	spec.Wrap = pick(r, procWraps)
 	sc := Script{Sources: []string{base64.StdEncoding.EncodeToString(pp.Src)}, Paths: []string{pick(r, destNames)}, Sim: variant == "sim"}
 	if variant == "sim" {
 		sc.Ops = append(sc.Ops, Op{Op: "clock", Ns: int64(r.U64() % uint64(200*365*24*time.Hour))})
@@ -500,6 +505,9 @@ func genHistory(seed uint64, variant string, pool []*PoolProg, admitted []int) *
 	}
 	if r.Chance(1, 3) {
 		spec.Shell = pick(r, shellPreludes)
+	}
+	if r.Chance(1, 3) {
+		spec.Wrap = pick(r, procWraps)
 	}
 	// program selection: 3..8, twins together when possible
 	want := r.Range(3, 8)
@@ -887,6 +895,9 @@ func (c *simCtx) runSpecKeep(spec *RunSpec, before func(dir string, sc *Script))
 	if spec.Uid != 0 {
 		os.Chmod(dir, 0777)
 		argv = append([]string{"setpriv", fmt.Sprintf("--reuid=%d", spec.Uid), fmt.Sprintf("--regid=%d", spec.Uid), "--clear-groups"}, argv...)
+	}
+	if len(spec.Wrap) > 0 { // outermost: needs the privileges of the harness (new UTS namespace)
+		argv = append(append([]string{}, spec.Wrap...), argv...)
 	}
 	pr := runProc(workerWatchdog, dir, env, argv...)
 	if pr.TimedOut {
